@@ -273,6 +273,14 @@ def as_cond(t):
 
 def simp1(t):
     k = t[0]
+    if k == 'comp' and len(t[1]) == 1 and t[1][0][1] == TRUE:
+        b = t[1][0][0]
+        e = t[2]
+        # [list(row) for row in X] / [row[:] for row in X] / [row for row in X]: X itself, as a value (a copy of its rows)
+        if e == b or (e[0] == 'call' and e[1] in (S('list'), S('tuple')) and len(e[2]) == 1 and e[2][0] == b and not (len(e) > 3 and e[3])) \
+                or (e[0] == 'slice' and e[1] == b and e[2] == NONE and e[3] == NONE):
+            if b[0] == 'bvar' and b[3][0] in ('sym', 'attr'):
+                return b[3]
     if k == 'not':
         a = as_cond(t[1])
         if a[0] == 'const':
@@ -341,6 +349,13 @@ def simp1(t):
         if op == 'Div' and is_path(a):
             # Path(d) / name  is  Path(d + '/' + name)   (pathlib: the canonical spelling is the string one)
             return ('call', PATH, (('bin', 'Add', ('bin', 'Add', a[2][0], C('/')), b[2][0] if is_path(b) else b),), ())
+        if op in ('BitAnd', 'BitOr') and is_literal_seq(a) and is_literal_seq(b) and all(known_value(x) is not None for x in a[1] + b[1]):
+            # intersection / union of two literal collections (sets built from literals: used for membership and emptiness only)
+            kb = {known_value(x) for x in b[1]}
+            if op == 'BitAnd':
+                return ('tuple', tuple(x for x in a[1] if known_value(x) in kb))
+            ka = {known_value(x) for x in a[1]}
+            return ('tuple', tuple(a[1]) + tuple(x for x in b[1] if known_value(x) not in ka))
         if op in BINF and is_num(a) and is_num(b):
             return C(BINF[op](a[1], b[1]))
         if op == 'Add' and a[0] == 'const' and b[0] == 'const' and isinstance(a[1], str) and isinstance(b[1], str):
@@ -403,6 +418,11 @@ def simp1(t):
                 return simp(('idx', args[0], f[2][0])) or ('idx', args[0], f[2][0])
         if f[0] == 'attr' and f[2] in ('lower', 'upper', 'strip', 'title', 'capitalize') and not args and f[1][0] == 'const' and isinstance(f[1][1], str) and not (len(t) > 3 and t[3]):
             return C(getattr(f[1][1], f[2])())
+        if f[0] == 'attr' and f[2] in ('items', 'keys', 'values') and f[1][0] == 'dict' and not args and not (len(t) > 3 and t[3]):
+            # the views of a literal dictionary, in insertion order
+            if f[2] == 'items':
+                return ('list', tuple(('tuple', (k_, v_)) for k_, v_ in f[1][1]))
+            return ('list', tuple((k_ if f[2] == 'keys' else v_) for k_, v_ in f[1][1]))
         if f[0] == 'attr' and f[2] == 'get' and f[1][0] == 'dict' and len(args) in (1, 2):
             ki = known_value(args[0])
             if ki is not None and all(known_value(kk) is not None for kk, _ in f[1][1]):
@@ -466,3 +486,65 @@ def alpha(t):
             return x[:3] + ('acc',) + tuple(x[4:])
         return None
     return subst(t, f)
+
+
+def facts_of(cond, truth, out=None):
+    """elementary conditions decided by `cond is truth`  ->  {condition term: bool}"""
+    out = {} if out is None else out
+    c = cond
+    if c[0] == 'not':
+        return facts_of(c[1], not truth, out)
+    out[c] = truth
+    if c[0] == 'bool':
+        if (c[1] == 'and' and truth) or (c[1] == 'or' and not truth):
+            for x in c[2]:
+                facts_of(x, truth, out)
+    if c[0] == 'cmp' and c[1] in ('Eq', 'NotEq', 'Is', 'IsNot'):
+        eq = c[1] in ('Eq', 'Is')
+        for a, b in ((c[2], c[3]), (c[3], c[2])):
+            if a[0] == 'ite':
+                # (g ? X : Y) == K: a branch that is K itself (or a different literal) decides the comparison; if it would make
+                # the comparison come out as NOT observed, that branch was not taken
+                for br, val in ((a[2], True), (a[3], False)):
+                    if br == b:
+                        same = True
+                    elif br[0] == 'const' and b[0] == 'const':
+                        same = False
+                    else:
+                        continue
+                    if (same == eq) != truth:
+                        facts_of(a[1], not val, out)
+    return out
+
+
+def refine(t, facts):
+    """t with every conditional whose test is decided by `facts` replaced by the branch taken"""
+    if not facts:
+        return t
+
+    def f(x):
+        if x[0] == 'ite':
+            c = x[1]
+            if c in facts:
+                return x[2] if facts[c] else x[3]
+            if c[0] == 'not' and c[1] in facts:
+                return x[3] if facts[c[1]] else x[2]
+        return None
+    prev = None
+    cur = t
+    for _ in range(4):
+        if cur == prev:
+            break
+        prev, cur = cur, subst(cur, f)
+    return cur
+
+
+def split_paths(t, facts=None):
+    """leaves of a conditional term, each refined by the tests passed on the way to it  ->  [(facts, leaf)]"""
+    facts = dict(facts or {})
+    t = refine(t, facts)
+    if t[0] == 'ite':
+        ft = facts_of(t[1], True, dict(facts))
+        ff = facts_of(t[1], False, dict(facts))
+        return split_paths(t[2], ft) + split_paths(t[3], ff)
+    return [(facts, t)]
